@@ -21,13 +21,20 @@ def run(tier):
     beh, pres, quick = c02.paint_run(c, tier)
     pres.mismatches = [m for m in pres.mismatches if m.get("step") == 2]
     c.add_replay(pres, "outside probe of every feature stack of Paint.tla")
+    gb, gres = c02.subset_run(c, tier)
+    gres.mismatches = [m for m in gres.mismatches if m.get("check") == "subset-background"]
+    c.add_replay(gres, "world-file grammar: where no feature of the document contains the point the answer is that of the document without features")
+    c.coverage["grammar_documents"] = len(gb)
+    c.coverage["background_rows"] = gres.stats.get("by_check", {}).get("subset-background", 0)
     c.coverage["exhaustive"] = True
     c.coverage["distinct_nontrivial"] = n + len(beh)
     c.coverage["rule"] = ("all combinations of potential temperature {1600,1000,273} x expansivity {3.5e-5,0,1e-4} x specific heat x gravity "
                           "magnitude x coordinate system x forced/unforced x surface temperature x {no features, features that miss the probe, a "
                           "covering feature}, each queried at depths {-10 km, 0, 1 m, 100 km, 2890 km} with 5 property lists; every history of 4 (quick) / 6 "
                           "(thorough) queries at {100, 2890} km against three simultaneously live worlds with different constants; plus the outside "
-                          "probe of every feature stack of Paint.tla. non-trivial: all (each has a distinct constant set or feature stack)")
+                          "probe of every feature stack of Paint.tla; plus documents of the world-file grammar Gen.tla (up to three features of any type, "
+                          "depth surfaces, every deterministic model, three sets of global constants, both coordinate systems): at every lattice point that none of the one-feature "
+                          "worlds claims, the full document answers bit for bit like the same document without features and reports tag -1. non-trivial: all (each has a distinct constant set or feature stack)")
     c.assumptions += ["temperature compared with relative tolerance 1e-13 against the term Tp*exp(((alpha*g)/cp)*depth) evaluated in the same operation order",
                       "other blocks compared exactly"]
     return c.finish()
